@@ -148,6 +148,11 @@ EDITS = [
      '            for j in range(1, m):\n                for k in range(p2):\n                    mat3[i][j] += float(mat1[i][k] * mat2[k][j])', ['linalg.matrix_multiply'], 'caught'),
     ('linalg.py', '                    mat3[i][j] += float(mat1[i][k] * mat2[k][j])', '                    mat3[i][j] += float(mat2[k][j] * mat1[i][k])',
      ['linalg.matrix_multiply'], 'quiet'),
+    # ---- fitting._build_coeff_matrix (splice assignment; breaking, then harmless)
+    ('fitting.py', '        matrix_a[i][span-degree:span+1] = helpers.basis_function(degree, knotvector, span, params[i])', '        matrix_a[i][span-degree+1:span+2] = helpers.basis_function(degree, knotvector, span, params[i])', ['fitting._build_coeff_matrix'], 'caught'),
+    ('fitting.py', '        matrix_a[i][span-degree:span+1] = helpers.basis_function(degree, knotvector, span, params[i])', '        matrix_a[i][span-degree:span+1] = helpers.basis_function(degree, knotvector, span, params[0])', ['fitting._build_coeff_matrix'], 'caught'),
+    ('fitting.py', '        span = helpers.find_span_linear(degree, knotvector, num_points, params[i])\n        matrix_a[i][span-degree:span+1] = helpers.basis_function(degree, knotvector, span, params[i])', '        span = helpers.find_span_linear(degree, knotvector, num_points, params[i - 1])\n        matrix_a[i][span-degree:span+1] = helpers.basis_function(degree, knotvector, span, params[i])', ['fitting._build_coeff_matrix'], 'caught'),
+    ('fitting.py', '        matrix_a[i][span-degree:span+1] = helpers.basis_function(degree, knotvector, span, params[i])', '        first = span - degree\n        vals = helpers.basis_function(degree, knotvector, span, params[i])\n        matrix_a[i][first:first + degree + 1] = vals', ['fitting._build_coeff_matrix'], 'quiet'),
     # ---- _linalg.doolittle (breaking, then harmless)
     ('_linalg.py', 'matrix_u[i][k] = float(matrix_a[i][k] - sum([matrix_l[i][j] * matrix_u[j][k] for j in range(0, i)]))',
      'matrix_u[i][k] = float(matrix_a[i][k] - sum([matrix_l[i][j] * matrix_u[j][k] for j in range(1, i)]))', ['_linalg.doolittle'], 'caught'),
